@@ -71,6 +71,10 @@ var cancels = []event{
 	// not schedule, and the outcome of later host-wrapper uses depends on who wins (DESIGN 8.7). The deterministic
 	// equivalent of the order "stop lands after run() started" is a cancel at the very first operation:
 	{"cancel", "blocked-recv@first-op", "ch2 := make(chan int)\n<-ch2", ""},
+	// The already-expired context itself, restricted to what does not depend on who wins the race described above: the
+	// evaluated program terminates by itself, the harness lets it finish, and no host wrapper is called before the next
+	// Eval (enforced in histories()). Everything else must hold in either order.
+	{"cancel", "expired-context", "_ = 1 + 1", ""},
 }
 
 type history struct {
@@ -190,6 +194,9 @@ func runHistory(h history, skipCancels bool) (res result) {
 			rel := release
 			relMu.Unlock()
 			switch {
+			case e.Name == "expired-context":
+				cancelAt.Store(0)
+				cancel()
 			case strings.HasSuffix(e.Name, "@first-op"):
 				cancelAt.Store(1)
 				cancelFn.Store(cancel)
@@ -206,7 +213,7 @@ func runHistory(h history, skipCancels bool) (res result) {
 			cancelAt.Store(0)
 			close(rel)
 			cancel()
-			if err == nil {
+			if err == nil && e.Name != "expired-context" { // an expired context and a program that is already done: either answer
 				res.Err = "cancelled evaluation " + e.Name + " returned no error"
 				return
 			}
@@ -308,6 +315,9 @@ func histories(maxLen int) []history {
 				return
 			}
 			for _, e := range alphabet {
+				if e.Kind == "hostuse" && len(cur) > 0 && cur[len(cur)-1].Name == "expired-context" {
+					continue // order-dependent on the pinned tree (see the expired-context kind)
+				}
 				tails(append(append([]event{}, cur...), e))
 			}
 		}
@@ -368,7 +378,7 @@ func main() {
 	r.Set("distinct_nontrivial", len(res.Sets["obs"]))
 	r.Set("max_history_length", maxLen)
 	r.Set("exhaustive", true)
-	r.Set("rule", "all histories define* ; (use | cancelled-eval)* with <= 3 definitions out of 12 kinds (function, method+var, closure in var, method value, pointer-receiver method, caller, package variable + setter, functions using select / range over a channel, host wrappers of function / closure / method value), uses through Eval (calls, and statements that allocate no new package-level slot followed by a read) and from the host, 5 cancelled-evaluation kinds (busy loops cancelled at operation 30 by the step hook, blocked receive cancelled at the receive and at the first operation), total length <= the bound, containing a use after a cancelled evaluation; states = distinct reference observation vectors")
+	r.Set("rule", "all histories define* ; (use | cancelled-eval)* with <= 3 definitions out of 12 kinds (function, method+var, closure in var, method value, pointer-receiver method, caller, package variable + setter, functions using select / range over a channel, host wrappers of function / closure / method value), uses through Eval (calls, and statements that allocate no new package-level slot followed by a read) and from the host, 5 cancelled-evaluation kinds (busy loops cancelled at operation 30 by the step hook, blocked receive cancelled at the receive and at the first operation, already-expired context with a terminating program and no host call before the next Eval), total length <= the bound, containing a use after a cancelled evaluation; states = distinct reference observation vectors")
 	r.Assumptions = []string{"oracle = the same history without the cancelled evaluations", "the cancelled evaluation's goroutine is allowed to finish before the next event (waits for the goroutine count to settle, not an oracle)"}
 	for _, i := range []int{0, len(hs) / 2, len(hs) - 1} {
 		r.Sample(hs[i].name())
